@@ -867,31 +867,58 @@ def oversize_probe(rep: Report, ctx):
 
 
 def trailing_nul_probe(rep: Report, ctx):
-    """'... with its own password and with no other': the password followed by NUL bytes is another password."""
+    """'... with its own password and with no other': own passwords of every shape a password file delivers (ending in LF, CRLF,
+    a blank, starting with a blank, other case) must open their key, and every near miss - the same password with a line
+    break / blank / NUL added or removed, other case - must be refused."""
+    shapes = [b'secret', b'secret\n', b'secret\r\n', b'secret ', b' secret', b'Secret', b'secret\n\n']
     for kdf in CHAIN_KDFS:
-        for how in ('init', 'add-key'):
-            pw = b'secret-' + how.encode()
-            if how == 'init':
-                r = real_init(settings_of(kdf=copy.deepcopy(kdf)), pw)
-                be, key = r['backend'], Repository(r['backend'], concurrent=1, cache_directory=None).serialize(r['result'].key)
-            else:
-                be, _ = make_repo(None, ctx.rng)
-                repo = Repository(be, concurrent=1, cache_directory=None)
-                out = run_async(lambda: repo.add_key(password=pw, settings={'encryption': {'kdf': copy.deepcopy(kdf)}}, shared=False))
-                key = Repository(be, concurrent=1, cache_directory=None).serialize(out.new_key)
-            rep.case(('trailing-nul', kdf.get('name'), json.dumps(kdf, sort_keys=True), how), nontrivial=True)
-            for bad in (pw + b'\x00', pw + b'\x00\x00\x00', b'\x00' + pw):
+        for how in ('init', 'add-key', 'add-key-shared'):
+            for pw in shapes:
+                replay = {'component': 'trailing-nul', 'kdf': kdf, 'password': pw.hex(), 'how': how}
                 try:
-                    run_async(lambda: Repository(be, concurrent=1, cache_directory=None).unlock(password=bad, key=key))
+                    if how == 'init':
+                        r = real_init(settings_of(kdf=copy.deepcopy(kdf)), pw)
+                        assert r['accepted'], r['error']
+                        be, key = r['backend'], Repository(r['backend'], concurrent=1, cache_directory=None).serialize(r['result'].key)
+                    else:
+                        be, res = make_repo(None, ctx.rng)
+                        repo = Repository(be, concurrent=1, cache_directory=None)
+
+                        async def go():
+                            if how == 'add-key-shared':
+                                await repo.unlock(password=b'owner', key=Repository(be, concurrent=1, cache_directory=None).serialize(res.key))
+                            return await repo.add_key(password=pw, settings={'encryption': {'kdf': copy.deepcopy(kdf)}}, shared=how == 'add-key-shared')
+                        key = Repository(be, concurrent=1, cache_directory=None).serialize(run_async(go).new_key)
                 except BaseException as e:  # noqa
                     if isinstance(e, (KeyboardInterrupt, SystemExit, MemoryError)):
                         raise
+                    rep.violations.append({'what': f'{how} with kdf {kdf.get("name")} and password {pw!r} fails: {exc_name(e)}: {e}'[:200],
+                                           'signature': {'kind': 'key_not_made', 'kdf': kdf.get('name')}, 'replay': replay})
                     continue
-                trailing = bad.startswith(pw)
-                rep.violations.append({'what': f'a key made by {how} with kdf {kdf.get("name")} and password {pw!r} is also unlocked by {bad!r}',
-                                       'signature': {'kind': 'unlock_trailing_nul' if trailing else 'foreign_password_unlocks', 'kdf': kdf.get('name')},
-                                       'replay': {'component': 'trailing-nul', 'kdf': kdf, 'password': pw.hex(), 'wrong_password': bad.hex(), 'how': how}})
-                break
+                rep.case(('near-miss', json.dumps(kdf, sort_keys=True), how, pw.hex()), nontrivial=True)
+                rep.count('near-miss-keys')
+
+                def opens(password):
+                    try:
+                        run_async(lambda: Repository(be, concurrent=1, cache_directory=None).unlock(password=password, key=key))
+                        return True
+                    except BaseException as e:  # noqa
+                        if isinstance(e, (KeyboardInterrupt, SystemExit, MemoryError)):
+                            raise
+                        return False
+                if not opens(pw):
+                    rep.violations.append({'what': f'a key made by {how} with kdf {kdf.get("name")} and password {pw!r} does not open with that password',
+                                           'signature': {'kind': 'own_password_fails', 'kdf': kdf.get('name')}, 'replay': replay})
+                    continue
+                wrong = [x for x in shapes if x != pw] + [pw + b'\n', pw + b'\r\n', pw + b' ', b' ' + pw, pw.swapcase(), pw.strip() + b'\t',
+                                                         pw + b'\x00', pw + b'\x00\x00\x00', b'\x00' + pw]
+                for bad in wrong:
+                    if bad != pw and opens(bad):
+                        nul = bad.startswith(pw) and set(bad[len(pw):]) == {0}
+                        rep.violations.append({'what': f'a key made by {how} with kdf {kdf.get("name")} and password {pw!r} is also unlocked by {bad!r}',
+                                               'signature': {'kind': 'unlock_trailing_nul' if nul else 'foreign_password_unlocks', 'kdf': kdf.get('name')},
+                                               'replay': dict(replay, wrong_password=bad.hex())})
+                        break
 
 
 # --------------------------------------------------------------------------- key files written by init / add-key
@@ -1037,7 +1064,7 @@ def run_chain(cipher, ops, kdf_choice, same_pw, ctx, tag):
     be = MemBackend()
     de = lambda text: Repository(be, concurrent=1, cache_directory=None).deserialize(text)  # noqa
     res, printed = run_async_capture(lambda: Repository(be, concurrent=1, cache_directory=None).init(password=b'owner', settings=settings_of(cipher=cipher)))
-    keys, pws, stdout_differs = [last_json_object(printed)], [b'owner'], []
+    keys, pws, stdout_differs, failed = [last_json_object(printed)], [b'owner'], [], None
     if keys[0] is None or de(keys[0]) != res.key:
         stdout_differs.append(0)
         keys[0] = keys[0] or Repository(be, concurrent=1, cache_directory=None).serialize(res.key)
@@ -1052,7 +1079,14 @@ def run_chain(cipher, ops, kdf_choice, same_pw, ctx, tag):
                 return await repo.add_key(password=new_pw, settings=settings, shared=False)
             await repo.unlock(password=pws[op[1]], key=keys[op[1]])
             return await repo.add_key(password=pws[op[1]] if op[0] == 'clone' else new_pw, settings=settings, shared=True)
-        out, printed = run_async_capture(go)
+        try:
+            out, printed = run_async_capture(go)
+        except BaseException as e:  # noqa - the chain ends here; what was made so far is still judged
+            if isinstance(e, (KeyboardInterrupt, SystemExit, MemoryError)):
+                raise
+            failed = (op[1] if len(op) > 1 else 0,
+                      f'add-key {op} could not be run (fresh process, key and password of holder {op[1] if len(op) > 1 else "-"}): {exc_name(e)}: {e}'[:200])
+            break
         keys.append(last_json_object(printed))
         if keys[-1] is None or de(keys[-1]) != out.new_key:
             stdout_differs.append(i + 1)
@@ -1091,6 +1125,8 @@ def run_chain(cipher, ops, kdf_choice, same_pw, ctx, tag):
                 raise
     partition = [privates.index(p) for p in privates]
     problems += [(i, 'the key printed on standard output is not the key the call returned (or no key was printed)') for i in stdout_differs]
+    if failed:
+        problems.append(failed)
     return matrix, errors, partition, problems, pws, stranger
 
 
@@ -1119,7 +1155,9 @@ def check_chains(rep: Report, ctx, n_len3, ciphers, with_model=True):
     todo = []
     for ci, cipher in enumerate(ciphers):
         for ops in (short + long_ if ci == 0 else ctx.rng.sample(short + long_, max(6, len(short + long_) // 4))):
-            kdf_choice = [ctx.rng.randrange(3) for _ in ops]
+            # KDF settings per key: random, or (every third chain) those of the first key for every key - a new key may well
+            # have the password AND the KDF settings of the key that was used to unlock
+            kdf_choice = [ctx.rng.randrange(3) for _ in ops] if len(todo) % 3 else [0 for _ in ops]
             todo.append((cipher, ops, kdf_choice, ctx.rng.random() < 0.15))
     results = []
     for t, (cipher, ops, kdf_choice, same_pw) in enumerate(todo):
@@ -1146,7 +1184,8 @@ def check_chains(rep: Report, ctx, n_len3, ciphers, with_model=True):
         for i, p in problems:
             rep.violations.append({'what': f'key {i} of the chain {ops} unlocks but the repository cannot be used with it: {p}',
                                    'signature': {'kind': 'key_unusable'}, 'replay': case})
-        results.append((case, ops, kdf_choice, pws, matrix, partition))
+        if len(pws) == len(ops) + 1:        # a chain that could not be completed is reported above, not compared with the model
+            results.append((case, ops, kdf_choice, pws, matrix, partition))
     if with_model and results:
         text = PRELUDE + 'Open Scope N_scope.\nDefinition chains : list (N * list top) := [\n' + ';\n'.join(
             '  ' + chain_to_coq(ops, kc, pws) for _, ops, kc, pws, _, _ in results) + '].\n' + \
@@ -1229,14 +1268,22 @@ def run(ctx) -> Report:
     check_init_cases(lattice + prod + cli, rep, ctx)
     check_add_key_settings(rep, ctx)
     ciphers = [{'key_bits': 256}, {'name': 'chacha20_poly1305'}, {'key_bits': 128, 'nonce_bits': 64}]
-    check_chains(rep, ctx, ctx.scale(25, None), ciphers if ctx.tier == 'thorough' else ciphers[:2])
-    long_password_probe(rep, ctx)
-    key_file_probe(rep, ctx)
-    reinit_probe(rep, ctx, ctx.scale(4, 40))
-    oversize_probe(rep, ctx)
-    trailing_nul_probe(rep, ctx)
-    shared_cache_probe(rep, ctx)
-    check_utils(rep, ctx, ctx.scale(60, 400))
+    def guard(name, fn, *a):
+        # a probe that aborts (an exception of the implementation where the probe did not expect one) is reported with its
+        # traceback and must not take the other probes down
+        try:
+            fn(*a)
+        except Exception:  # noqa
+            import traceback
+            rep.disagreements.append({'what': f'{name} aborted: ' + traceback.format_exc()[-900:], 'replay': {'component': name}})
+    guard('check_add_key_chains', check_chains, rep, ctx, ctx.scale(25, None), ciphers if ctx.tier == 'thorough' else ciphers[:2])
+    guard('long_password_probe', long_password_probe, rep, ctx)
+    guard('key_file_probe', key_file_probe, rep, ctx)
+    guard('reinit_probe', reinit_probe, rep, ctx, ctx.scale(4, 40))
+    guard('oversize_probe', oversize_probe, rep, ctx)
+    guard('near_miss_probe', trailing_nul_probe, rep, ctx)
+    guard('shared_cache_probe', shared_cache_probe, rep, ctx)
+    guard('check_utils', check_utils, rep, ctx, ctx.scale(60, 400))
     rep.notes.append('not exercised: the default user KDF (scrypt n=2**20, 1 GiB) - every encrypted case names cheap KDF parameters')
     return rep
 
